@@ -118,7 +118,13 @@ def run(ctx):
                 jobs.append({"part": "cdconst", "instance": inst, "k": 1, "cdcases": cds[i::4], "shard": 50 + i})
 
     def one(j):
+        if j["part"] == "two":
+            return ctx.run_driver("wrapper", j, tag="two-" + j["instance"], timeout=3400)
         return ctx.run_driver("c01", j, tag="%s-%s-%d" % (j["part"], j["instance"], j["shard"]), timeout=3400)
+
+    # one verifier chip used for two proofs: a changed leaf of the second proof must be rejected as it is alone
+    for pair in (("testdata+roottest", "epochCb+epoch4R") if thorough else ("testdata+roottest",)):
+        jobs.append({"part": "two", "instance": pair, "k": 1, "ks": ["value"], "stride": 24 if thorough else 6, "shard": 71})
 
     fb = 0
     with ThreadPoolExecutor(max_workers=common.NCPU) as ex:
